@@ -307,14 +307,70 @@ fn long_target_doc(l1: usize, second: usize, ctx: usize) -> String {
     }
 }
 const N_LONG_UNITS: u64 = 40;
+/// Documents with many links (two-digit references): n links spread over a paragraph, a list
+/// and a table; every third one repeats a target, every seventh has no content.
+const MANY: [usize; 8] = [9, 10, 11, 12, 19, 20, 21, 40];
+fn many_links_doc(n: usize, shape: usize) -> String {
+    let link = |k: usize| -> String {
+        let a = (b'a' + (k / 26) as u8) as char;
+        let b = (b'a' + (k % 26) as u8) as char;
+        let href = if k % 3 == 2 { "/r".to_string() } else { format!("/{k}") };
+        if k % 7 == 6 {
+            format!("<a href=\"{href}\"></a>")
+        } else {
+            format!("<a href=\"{href}\">z{a}{b}</a>")
+        }
+    };
+    let mut s = String::new();
+    match shape {
+        0 => {
+            s.push_str("<p>");
+            for k in 0..n {
+                s.push_str(&format!("w {} ", link(k)));
+            }
+            s.push_str("</p>");
+        }
+        1 => {
+            s.push_str("<ol>");
+            for k in 0..n {
+                s.push_str(&format!("<li>{}</li>", link(k)));
+            }
+            s.push_str("</ol>");
+        }
+        _ => {
+            s.push_str("<p>");
+            for k in 0..n / 2 {
+                s.push_str(&format!("{} ", link(k)));
+            }
+            s.push_str("</p><blockquote><ul>");
+            for k in n / 2..n {
+                s.push_str(&format!("<li>x {} y</li>", link(k)));
+            }
+            s.push_str("</ul></blockquote>");
+        }
+    }
+    s
+}
 fn cfgs() -> Vec<Cfg> {
     vec![Cfg::plain(), Cfg::plain().with(Opt::Footnotes(false)), Cfg::trivial().with(Opt::Footnotes(true)), Cfg::trivial(), Cfg::rich().with(Opt::Footnotes(true))]
 }
 impl Scope for S {
     fn units(&self) -> u64 {
-        *self.offsets.last().unwrap() + self.n_offset_units + N_LONG_UNITS
+        *self.offsets.last().unwrap() + self.n_offset_units + N_LONG_UNITS + (MANY.len() * 3) as u64
     }
     fn run_unit(&self, unit: u64, cx: &mut Cx) {
+        if unit >= *self.offsets.last().unwrap() + self.n_offset_units + N_LONG_UNITS {
+            let u = (unit - *self.offsets.last().unwrap() - self.n_offset_units - N_LONG_UNITS) as usize;
+            let h = many_links_doc(MANY[u / 3], u % 3);
+            let d = dom::parse(h.as_bytes());
+            let ls = links(&d);
+            for w in (10..=40usize).chain([60, 80, 120]) {
+                for cfg in cfgs() {
+                    check_parsed(&h, &ls, false, w, &cfg, cx);
+                }
+            }
+            return;
+        }
         if unit >= *self.offsets.last().unwrap() + self.n_offset_units {
             let l1 = (unit - *self.offsets.last().unwrap() - self.n_offset_units) as usize + 1;
             for second in 0..2 {
@@ -369,7 +425,7 @@ impl Scope for S {
     }
     fn info(&self) -> Info {
         Info {
-            rule: "documents of 0..maxk links, each placed in one of 8 containers (paragraph, list item, quote, heading, table cell, nested table cell, dt, pre) with one of 8 contents (text, em, image, empty, whitespace, deeply empty, two words, three words with em; 5 of them for documents of 3+ links), repeated targets; plus multi-word links placed after 0..15 columns of text in a paragraph / list item / quote at every width 8..=44; plus two links whose first target is 1..40 characters long at every width 4..=48 (footnote entries that wrap, incl. exact multiples of the width); x widths x {plain, plain without footnotes, trivial with/without footnotes, rich with footnotes}; non-trivial = >= 2 links with content".into(),
+            rule: "documents of 0..maxk links, each placed in one of 8 containers (paragraph, list item, quote, heading, table cell, nested table cell, dt, pre) with one of 8 contents (text, em, image, empty, whitespace, deeply empty, two words, three words with em; 5 of them for documents of 3+ links), repeated targets; plus multi-word links placed after 0..15 columns of text in a paragraph / list item / quote at every width 8..=44; plus two links whose first target is 1..40 characters long at every width 4..=48 (footnote entries that wrap, incl. exact multiples of the width); plus documents of 9..40 links in a paragraph / ordered list / quote with list (two-digit references, repeated targets, empty links); x widths x {plain, plain without footnotes, trivial with/without footnotes, rich with footnotes}; non-trivial = >= 2 links with content".into(),
             bounds: json!({"max_links": self.maxk, "places": NPLACES, "contents": NCONTENTS, "widths_3_or_more_links": self.widths, "widths_up_to_2_links": "8..=40"}),
             assumptions: vec!["a footnote entry wider than the width is expected as its greedy cut into pieces of at most w columns (the statement's 'after unwrapping at width')".into()],
         }
